@@ -16,6 +16,7 @@ import (
 	"path/filepath"
 	"sort"
 	"strings"
+	"sync"
 	"sync/atomic"
 
 	"github.com/AdguardTeam/urlfilter"
@@ -374,6 +375,8 @@ func makeHistStorage(rnd *rand.Rand, lines []string, dir string, forceFile bool)
 	parts := [][]string{lines[:cut], lines[cut:]}
 	var ls []filterlist.RuleList
 	var files []string
+	// list ids 0 and 1, or 1 and 2: 0 is an id like any other
+	idBase := rnd.Intn(2)
 	for i, p := range parts {
 		text := strings.Join(p, "\n")
 		if rnd.Intn(2) == 0 {
@@ -385,14 +388,14 @@ func makeHistStorage(rnd *rand.Rand, lines []string, dir string, forceFile bool)
 				return nil, nil, err
 			}
 			files = append(files, fn)
-			fl, err := filterlist.NewFileRuleList(i+1, fn, false)
+			fl, err := filterlist.NewFileRuleList(i+idBase, fn, false)
 			if err != nil {
 				return nil, nil, err
 			}
 			ls = append(ls, fl)
 			lastFileLists = append(lastFileLists, fl)
 		} else {
-			ls = append(ls, &filterlist.StringRuleList{ID: i + 1, RulesText: text})
+			ls = append(ls, &filterlist.StringRuleList{ID: i + idBase, RulesText: text})
 		}
 	}
 	if wrapHistList != nil {
@@ -545,6 +548,27 @@ func cmdDriveHistory(args []string) error {
 				askedSet[q.key()] = true
 				asked = append(asked, q)
 			}
+		}
+		// every distinct query once more on the SAME engines, from 4 goroutines at a time: what one request brought along
+		// must not show up in the answer to another one; answers that differ from the history's are logged
+		{
+			seqAnswer := map[string]string{}
+			for _, q := range asked {
+				a, _, _, _ := eng.run(q)
+				seqAnswer[q.key()] = shortDigest(a)
+			}
+			var cmu sync.Mutex
+			differing := 0
+			concurrently(len(asked), 4, seedFresh, func(_, i int) {
+				a, _, _, _ := eng.run(asked[i])
+				if d := shortDigest(a); d != seqAnswer[asked[i].key()] {
+					cmu.Lock()
+					if differing++; differing <= 20 {
+						out.write(map[string]any{"ev": "fresh", "q": asked[i].key(), "a": d, "rid": 0, "k": "concurrent", "h": hnum})
+					}
+					cmu.Unlock()
+				}
+			})
 		}
 		cleanup()
 		// every distinct query once more in a NEW PROCESS, in the reverse order of first appearance
